@@ -103,6 +103,11 @@ func (e *enc) callWith(c *ssa.CallCommon, args []Val, site ssa.Instruction, pos 
 	if fc == nil && callee != nil && !c.IsInvoke() && c.StaticCallee() == callee && e.v.inRepo(callee) && e.canInline(callee) {
 		return e.inlineCall(callee, args, rts, pos)
 	}
+	if fc == nil && c.IsInvoke() {
+		// a method call through an interface whose implementation is not known and has no contract may do anything,
+		// including panic (a typed-nil receiver behind fmt.Stringer, for one): it needs a contract in the table
+		e.safety("dynamic-callee-without-contract", "false", pos)
+	}
 	if fc == nil {
 		// unknown callee: arbitrary effects, arbitrary results
 		if callee != nil && e.v.inRepo(callee) {
